@@ -29,7 +29,24 @@ def streams(rng, tier, ctx):
                 sim.peer(i)
             nets = {"c2s": Net(), "s2c": Net()}
             dt = r.pick([100_000_000, 500_000_000, 1_000_000_000])
-            for round_ in range(r.range(5, 40)):
+            flood = (k % 4 == 3)
+            if flood:
+                # one full-size SYN per peer, then a long run of small stray frames of every type towards the pending entry
+                for i in range(npeers):
+                    sim.raw("c2s", i, codec.op("enc syn 3 %d 2000000 1000000 1000000" % (7 + i)), {"kind": "syn", "len": 1472})
+                sim.tick += 1; sim.set_time(sim.time + dt); sim.sstep(nets)
+                nflood = r.pick([250, 400])
+                kind = r.pick(["data", "data", "sync", "ack", "mixed"])
+                for j in range(nflood):
+                    i = 0 if r.chance(9, 10) else r.below(npeers)
+                    txt = {"data": "data %d %d 0" % (j, j & 1), "sync": "sync 5 5", "ack": "ack 1 2 0"}.get(kind) or \
+                          r.pick(["data %d 0 0" % j, "sync 5 5", "ack 1 2 0", "hsack %d" % (r.next() & 0xFFFFFFFF), "disc", "discack"])
+                    hx = codec.op("enc " + txt)
+                    if len(hx) >= 2:
+                        sim.raw("c2s", i, hx, {"kind": "stray", "len": len(hx) // 2})
+                    if j % r.pick([5, 20, 60]) == 0:
+                        sim.tick += 1; sim.set_time(sim.time + r.pick([1_000_000, 50_000_000])); sim.sstep(nets)
+            for round_ in range(r.range(5, 40) if not flood else 0):
                 for i in range(npeers):
                     if r.chance(1, 2):
                         kind = r.weighted([("syn", 5), ("syn_again", 3), ("short", 3), ("badver", 2), ("badcfg", 2), ("stray", 4), ("long", 1), ("noise", 1)])
